@@ -240,7 +240,7 @@ func genC07Wire(t *rapid.T) c07Wire {
 			continue
 		}
 		if sess > 0 && rapid.IntRange(0, 3).Draw(t, "mod?") == 0 {
-			c.Steps = append(c.Steps, c07Step{K: rapid.SampledFrom([]string{"modrej", "modrej", "modrem"}).Draw(t, "modk"), Sess: rapid.IntRange(0, sess-1).Draw(t, "msess")})
+			c.Steps = append(c.Steps, c07Step{K: rapid.SampledFrom([]string{"modrej", "modrej", "modrem", "modupd-echo", "modupd-new", "modupd-steal"}).Draw(t, "modk"), Sess: rapid.IntRange(0, sess-1).Draw(t, "msess")})
 			continue
 		}
 		st := c07Step{K: "est", Sess: sess, Choose: rapid.IntRange(0, 3).Draw(t, "choose"),
@@ -276,13 +276,27 @@ func runC07Wire(c c07Wire, ev *Ev) error {
 	// held: the chosen TEIDs that live sessions hold right now; the generator's bookkeeping (hook) must agree
 	// with it after every step, whatever was rejected on the way
 	held := map[uint32]string{}
+	// limbo: TEIDs chosen for a PDR of a live session that an Update PDR has since moved to a TEID of the control
+	// plane's own choice: nobody uses them any more, they may be released at once or with the session, not later
+	limbo := map[uint32]string{}
+	// imageOff: once an Update PDR has moved a PDR to another TEID, the BESS image is no longer compared: the entry
+	// under the old key stays behind, which is the recorded finding KF-C03-D15 (hazard updatePDRChangesMatch); the
+	// identifier bookkeeping - this property - is still checked after every step
+	imageOff := false
+	image := func() error {
+		if imageOff {
+			return nil
+		}
+		return run.CheckBessImage(r.B.Snap(), env, sim.BessImageOpts{})
+	}
 	checkHeld := func(i int, what string) error {
 		for tv, owner := range held {
 			if ok, _ := r.A.Iface.VerifTEIDAllocated(tv); !ok {
 				return fmt.Errorf("step %d (%s): TEID %d is held by live %s but the agent considers it free - it can be handed to another session", i, what, tv, owner)
 			}
 		}
-		if _, n := r.A.Iface.VerifTEIDAllocated(0); n != len(held) {
+		// (a TEID that stays allocated although nobody holds it is a leak - property C05 - and not asserted here)
+		if _, n := r.A.Iface.VerifTEIDAllocated(0); n < len(held) {
 			return fmt.Errorf("step %d (%s): the agent counts %d allocated TEIDs, live sessions hold %d", i, what, n, len(held))
 		}
 		return nil
@@ -294,15 +308,81 @@ func runC07Wire(c c07Wire, ev *Ev) error {
 				if o := run.Exec(model.Op{Kind: "del", Peer: 0, Seq: uint32(500 + i), Sess: st.Sess}); !o.Accepted {
 					return fmt.Errorf("step %d: deletion of live session %d rejected", i, st.Sess)
 				}
-				for tv, owner := range held {
-					if owner == fmt.Sprintf("session %d", st.Sess) || strings.HasPrefix(owner, fmt.Sprintf("session %d ", st.Sess)) {
-						delete(held, tv)
+				for _, m := range []map[uint32]string{held, limbo} {
+					for tv, owner := range m {
+						if owner == fmt.Sprintf("session %d", st.Sess) || strings.HasPrefix(owner, fmt.Sprintf("session %d ", st.Sess)) {
+							delete(m, tv)
+						}
 					}
 				}
 			}
 			if err := checkHeld(i, "del"); err != nil {
 				return err
 			}
+			continue
+		}
+		if st.K == "modupd-echo" || st.K == "modupd-new" || st.K == "modupd-steal" {
+			// Update PDR of a PDR whose F-TEID the UP function chose: the control plane restates the PDI with the
+			// TEID it was given (echo), or moves the PDR to a TEID of its own
+			s := run.Sess[st.Sess]
+			if s == nil || !s.Live {
+				continue
+			}
+			tv, has := s.ChosenTEID[10]
+			var cur *model.PDR
+			for k := range s.PDRs {
+				if s.PDRs[k].ID == 10 {
+					cur = &s.PDRs[k]
+				}
+			}
+			if !has || cur == nil || !cur.Choose {
+				continue
+			}
+			if _, isHeld := held[tv]; !isHeld {
+				continue
+			}
+			np := *cur
+			np.Choose, np.N3 = false, accessIP()
+			switch st.K {
+			case "modupd-echo":
+				np.TEID = tv
+			case "modupd-new":
+				np.TEID = uint32(0x700000 + i)
+			default:
+				// the control plane's own TEID happens to be one the UP function chose for another live session:
+				// that session keeps holding it whatever becomes of this one
+				found := false
+				for other, owner := range held {
+					if other != tv && !strings.HasPrefix(owner, fmt.Sprintf("session %d ", st.Sess)) && (!found || other < np.TEID) {
+						np.TEID, found = other, true
+					}
+				}
+				if !found || !excluded("updatePDRChangesMatch") {
+					continue // two rules under one key: only meaningful while the image is not compared
+				}
+			}
+			o := run.Exec(model.Op{Kind: "mod", Peer: 0, Seq: uint32(700 + i), Sess: st.Sess, Note: "any", UpdPDRs: []model.PDR{np}})
+			if o.NoResp || !o.Alive {
+				return fmt.Errorf("step %d: modification not answered", i)
+			}
+			if !o.Accepted {
+				return fmt.Errorf("step %d (%s): Update PDR restating PDR 10 with an explicit F-TEID rejected (cause %d)", i, st.K, o.Cause)
+			}
+			if st.K != "modupd-echo" {
+				limbo[tv] = held[tv]
+				delete(held, tv)
+				if excluded("updatePDRChangesMatch") && !imageOff {
+					imageOff = true
+					ev.Exclude("image comparison after a key-changing Update PDR (KF-C03-D15)")
+				}
+			}
+			if err := checkHeld(i, st.K); err != nil {
+				return err
+			}
+			if err := image(); err != nil {
+				return fmt.Errorf("step %d (%s): %w", i, st.K, err)
+			}
+			ev.Label(st.K)
 			continue
 		}
 		if st.K == "modrej" || st.K == "modrem" {
@@ -336,11 +416,12 @@ func runC07Wire(c c07Wire, ev *Ev) error {
 					return fmt.Errorf("step %d: removal of PDR 10 rejected (cause %d)", i, o.Cause)
 				}
 				delete(held, tv)
+				delete(limbo, tv)
 			}
 			if err := checkHeld(i, st.K); err != nil {
 				return err
 			}
-			if err := run.CheckBessImage(r.B.Snap(), env, sim.BessImageOpts{}); err != nil {
+			if err := image(); err != nil {
 				return fmt.Errorf("step %d (%s): %w", i, st.K, err)
 			}
 			ev.Label(st.K)
@@ -433,7 +514,7 @@ func runC07Wire(c c07Wire, ev *Ev) error {
 			}
 		}
 		// the values reported are the values programmed
-		if err := run.CheckBessImage(r.B.Snap(), env, sim.BessImageOpts{}); err != nil {
+		if err := image(); err != nil {
 			return fmt.Errorf("step %d: reported identifiers differ from the programmed ones: %w", i, err)
 		}
 		if err := checkHeld(i, "est"); err != nil {
